@@ -179,13 +179,17 @@ func structHarnesses(prog *MProgram, prefix string, quick, thorough [][]int64) [
 }
 
 func genVariant(label, options string, opts genOpts, pkg string, entry func(g *harnessGen, pkg string) string, hs func(prog *MProgram) []Harness) *Prop {
+	return genVariantCorpus(label, options, opts, pkg, entry, hs, corpusMain)
+}
+
+func genVariantCorpus(label, options string, opts genOpts, pkg string, entry func(g *harnessGen, pkg string) string, hs func(prog *MProgram) []Harness, corpus func() *MProgram) *Prop {
 	return &Prop{
 		Label:     label,
 		Pkg:       pkg,
 		NoOverlay: true,
 		Diff:      []string{"D_GEN_roundtrip"},
 		Prepare: func(r *runner) error {
-			prog := corpusMain()
+			prog := corpus()
 			r.spec.Harnesses = hs(prog)
 			return prepareGenerated(r, prog, genConfig{Options: options, Opts: opts}, entry)
 		},
@@ -200,7 +204,7 @@ func init() {
 	register(&Prop{
 		ID: "C02", QuickBudget: 25 * time.Minute, ThoroughBudget: 90 * time.Minute,
 		Functions: []string{"generated (*T).Write / Read / ReadFieldN / writeFieldN / IsSetX / CountSetFields for every struct-like of the corpus", "apache thrift v0.13.0 TBinaryProtocol + TMemoryBuffer (interpreted)", "reference codec zzEnc/zzDec (harness)"},
-		Bounds: "corpus a.thrift (7 struct-likes: all base types x requiredness, defaults, enums, typedefs, negative and >255 field ids, containers nested 2 deep, recursive struct, union, exception); every scalar leaf symbolic (full width), optional presence symbolic (in the perturbation harnesses the first 2 (unknown field) or 4 (retag/missing) presence decisions of a value are symbolic, the rest alternate), strings/binaries and every container of length n (quick n in 0..1, thorough 0..2), recursion depth 1; struct elements with defaulted optional members inside lists, sets and maps; unknown field: free i16 id, 11 wire types, every insertion position; retag / deletion of every declared field; union with 0 and 2 members; generator configurations: default, presentation-only options, naming_style golint/apache, keep_unknown_fields, enum_as_int_32",
+		Bounds:    "corpus a.thrift (7 struct-likes: all base types x requiredness, defaults, enums, typedefs, negative and >255 field ids, containers nested 2 deep, recursive struct, union, exception); every scalar leaf symbolic (full width), optional presence symbolic (in the perturbation harnesses the first 2 (unknown field) or 4 (retag/missing) presence decisions of a value are symbolic, the rest alternate), strings/binaries and every container of length n (quick n in 0..1, thorough 0..2), recursion depth 1; struct elements with defaulted optional members inside lists, sets and maps; unknown field: free i16 id, 11 wire types, every insertion position; retag / deletion of every declared field; union with 0 and 2 members; generator configurations: default, presentation-only options, naming_style golint/apache, keep_unknown_fields, enum_as_int_32",
 		Assumptions: []string{"the programs dimension is the designed corpus (sampled), only values and perturbations are solver-decided", "value domain: required/default struct fields non-nil, union has exactly one arm (except in the refusal harness), set elements pairwise different",
 			"the Go identifier of an IDL name is its capitalised form (corpus naming)", "compact/JSON protocols are outside"},
 		Variants: []*Prop{
@@ -291,7 +295,7 @@ func H_C18_nil_%[1]s() {
 			fmt.Fprintf(&sb, `// H_C18_setdup_%[1]s: Write rejects exactly the sets that contain two equal elements.
 func H_C18_setdup_%[1]s(n int) {
 	zzLen = n
-	zzL = zzSymLeavesFree{}
+	zzL = &zzSymLeavesFree{k: -1}
 	x := zzSym_%[1]s(zzDepth)
 	zzL = zzSymLeaves{}
 	vx := zzFrom_%[1]s(x)
@@ -331,12 +335,12 @@ func c18Harnesses(prog *MProgram) []Harness {
 
 func init() {
 	register(&Prop{
-		ID:        "C18",
-		Functions: []string{"generated (*T).DeepEqual and FieldNDeepEqual for every struct-like of the corpus", "generated Write (set uniqueness validation)", "strings.Compare / bytes.Compare"},
-		Bounds:    "two independent symbolic values x, y of every struct-like of the corpus (all leaves full-width symbolic, optional presence symbolic, map keys symbolic so key sets may differ), containers/strings of length n (quick 0..1, thorough 0..2); set validation with 2 (thorough 3) free elements per set",
+		ID: "C18", QuickBudget: 25 * time.Minute, ThoroughBudget: 90 * time.Minute,
+		Functions:   []string{"generated (*T).DeepEqual and FieldNDeepEqual for every struct-like of the corpus", "generated Write (set uniqueness validation)", "strings.Compare / bytes.Compare"},
+		Bounds:      "two independent symbolic values x, y of every struct-like of the corpus (all leaves full-width symbolic, optional presence symbolic, map keys symbolic so key sets may differ), containers/strings of length n (quick 0..1, thorough 0..2); set validation with 2 (thorough 3) free elements per set",
 		Assumptions: []string{"doubles are not NaN (the statement does not say)", "struct-typed map values and list elements are non-nil", "struct-typed map keys are outside the corpus", "the programs dimension is the designed corpus"},
 		Variants: []*Prop{
-			genVariant("gen_deep_equal", "gen_deep_equal", genOpts{}, "zzgen/a", entryC18, c18Harnesses),
+			genVariantCorpus("gen_deep_equal", "gen_deep_equal", genOpts{}, "zzgen/a", entryC18, c18Harnesses, corpusNoStructSet),
 		},
 	})
 }
@@ -387,7 +391,8 @@ func H_C10_agree_%[1]s(kind, i int) {
 	}
 	zzLen = 1
 	f := zzSt_%[1]s.Fields[i]
-	v := zzSym_%[1]s(zzDepth)
+	var v *%[2]s
+	zzWithPresenceBudget(zzPresenceBudget, func() { v = zzSym_%[1]s(zzDepth) })
 	want := zzFrom_%[1]s(v)
 	var m zzMod
 	switch kind {
@@ -475,9 +480,9 @@ func c10Harnesses(prog *MProgram) []Harness {
 
 func init() {
 	register(&Prop{
-		ID:        "C10",
-		Functions: []string{"generated BLength / FastAppend / FastWrite / FastWriteNocopy / FastRead (k-*.go) and the standard Read/Write of the fastgo backend", "cloudwego/gopkg v0.2.0 protocol/thrift BinaryProtocol (interpreted; Skip replaced by a safe-Go model with the same contract)", "reference codec (harness)"},
-		Bounds:    "corpus a.thrift under -g fastgo; values as in C02 (n<=1 quick, <=2 thorough); robustness on 3 (thorough 8) fixed pseudo-random values per struct-like: every truncation point of the reference encoding; every type byte (field header, STOP, list/set element type, map key/value type) replaced by a FREE byte; unknown / retagged / deleted field agreement with the standard Read",
+		ID: "C10", QuickBudget: 25 * time.Minute, ThoroughBudget: 90 * time.Minute,
+		Functions:   []string{"generated BLength / FastAppend / FastWrite / FastWriteNocopy / FastRead (k-*.go) and the standard Read/Write of the fastgo backend", "cloudwego/gopkg v0.2.0 protocol/thrift BinaryProtocol (interpreted; Skip replaced by a safe-Go model with the same contract)", "reference codec (harness)"},
+		Bounds:      "corpus a.thrift under -g fastgo; values as in C02 (n<=1 quick, <=2 thorough); robustness on 3 (thorough 8) fixed pseudo-random values per struct-like: every truncation point of the reference encoding; every type byte (field header, STOP, list/set element type, map key/value type) replaced by a FREE byte; unknown / retagged / deleted field agreement with the standard Read",
 		Assumptions: []string{"gopkg's BinaryProtocol.Skip (raw pointer walk) is replaced by the safe-Go model /verif/harness/gencommon/zzskip (a defect inside Skip itself would be invisible, its over-run behaviour is mirrored)", "an allocation with a symbolic size >= 2^24 ends the path (reported as tolerated 'hugealloc', only in the corruption harness)", "the programs dimension is the designed corpus"},
 		Variants: []*Prop{
 			{Label: "fastgo", Pkg: "zzgen/a", NoOverlay: true, Diff: []string{"D_GEN_roundtrip"}, Prepare: func(r *runner) error {
@@ -503,9 +508,9 @@ func c06Variant(label, options string) *Prop {
 
 func init() {
 	register(&Prop{
-		ID:        "C06",
-		Functions: []string{"generated package init (constants and variables), NewX, InitDefault, GetX, IsSetX for main.thrift/inc.thrift of harness/c06gen", "generator/golang/resolver.go (exercised through its output)"},
-		Bounds:    "38 constants covering every way of writing a value (literal, identifier, qualified identifier, enum by name/number/bare member, int for double, 0/1 for bool, both quote kinds, nested list/set/map literals, struct literals incl. partial and across includes) and a struct with 25 fields (defaults of every category incl. constant references and included enums); IsSet/getter semantics for EVERY value of each optional field with a default (full-width symbolic); configurations: default, enum_as_int_32, naming styles",
+		ID:          "C06",
+		Functions:   []string{"generated package init (constants and variables), NewX, InitDefault, GetX, IsSetX for main.thrift/inc.thrift of harness/c06gen", "generator/golang/resolver.go (exercised through its output)"},
+		Bounds:      "38 constants covering every way of writing a value (literal, identifier, qualified identifier, enum by name/number/bare member, int for double, 0/1 for bool, both quote kinds, nested list/set/map literals, struct literals incl. partial and across includes) and a struct with 25 fields (defaults of every category incl. constant references and included enums); IsSet/getter semantics for EVERY value of each optional field with a default (full-width symbolic); configurations: default, enum_as_int_32, naming styles",
 		Assumptions: []string{"constant initialisers contain no free variable: that part is a degenerate (one path) encoding", "expected values are written by hand from the IDL's rules (docs/string-literals-in-the-IDL.md)", "the programs dimension is this one designed program"},
 		Variants: []*Prop{
 			c06Variant("default", ""),
@@ -523,9 +528,9 @@ func init() {
 		{Func: "H_C09_chain", Covers: []string{"end"}},
 	}
 	register(&Prop{
-		ID:        "C09",
-		Functions: []string{"generated Read/Write of two schema versions (harness/c09gen old.thrift, new.thrift)", "default branch of the Read switch (Skip)", "apache thrift TBinaryProtocol.Skip (interpreted)"},
-		Bounds:    "one designed pair (old, new): new adds an optional scalar, a default struct field, a map of lists, an optional double with default, an optional struct at the root; an optional string and a list inside a nested struct (also reached through list elements and map values); a union arm; an enum member. All scalar leaves of the newer value symbolic (full width), presence of every added/optional member symbolic, containers of length 1 (plus unknown lists of 3, 63, 64, 65 and 130 elements at top level, inside an unknown struct and inside an unknown map under keep_unknown_fields: the codec's nesting budget is 64); chains new->old, old->new, new->old->new->old",
+		ID:          "C09",
+		Functions:   []string{"generated Read/Write of two schema versions (harness/c09gen old.thrift, new.thrift)", "default branch of the Read switch (Skip)", "apache thrift TBinaryProtocol.Skip (interpreted)"},
+		Bounds:      "one designed pair (old, new): new adds an optional scalar, a default struct field, a map of lists, an optional double with default, an optional struct at the root; an optional string and a list inside a nested struct (also reached through list elements and map values); a union arm; an enum member. All scalar leaves of the newer value symbolic (full width), presence of every added/optional member symbolic, containers of length 1 (plus unknown lists of 3, 63, 64, 65 and 130 elements at top level, inside an unknown struct and inside an unknown map under keep_unknown_fields: the codec's nesting budget is 64); chains new->old, old->new, new->old->new->old",
 		Assumptions: []string{"the (old,new) pairs dimension is this one designed pair", "keep_unknown_fields round trip is checked in variant 'keep' when the reflective protocol adapter can be executed"},
 		Variants: []*Prop{
 			{Label: "default", Pkg: "zzgen/c09/all", NoOverlay: true, Diff: []string{"D_C09_1"}, Harnesses: hs, Prepare: func(r *runner) error {
@@ -549,9 +554,9 @@ func init() {
 
 func init() {
 	register(&Prop{
-		ID:        "C08",
-		Functions: []string{"generated CalcClient methods, CalcProcessor.Process, calcProcessorX.Process, *Args/*Result codecs (harness/c08gen svc.thrift extends base.thrift)", "apache thrift v0.13.0 TStandardClient.Call/Send/Recv, TBinaryProtocol message framing, TApplicationException (interpreted)", "loopback transport (harness)"},
-		Bounds:    "one designed service (value method with two declared exceptions at ids 1 and 4 and arguments at ids 1 and 3, void method with an exception, oneway, no-argument method, method/parameter named like Go keywords, a method inherited across an include); all argument/result/exception members symbolic (strings of 1-2 bytes, list of 1), handler behaviour a free choice among {result, each declared exception, foreign error}; a sequence of 5 calls on one connection; unknown method names of 0..5 FREE bytes with a free sequence id",
+		ID:          "C08",
+		Functions:   []string{"generated CalcClient methods, CalcProcessor.Process, calcProcessorX.Process, *Args/*Result codecs (harness/c08gen svc.thrift extends base.thrift)", "apache thrift v0.13.0 TStandardClient.Call/Send/Recv, TBinaryProtocol message framing, TApplicationException (interpreted)", "loopback transport (harness)"},
+		Bounds:      "one designed service (value method with two declared exceptions at ids 1 and 4 and arguments at ids 1 and 3, void method with an exception, oneway, no-argument method, method/parameter named like Go keywords, a method inherited across an include); all argument/result/exception members symbolic (strings of 1-2 bytes, list of 1), handler behaviour a free choice among {result, each declared exception, foreign error}; a sequence of 5 calls on one connection; unknown method names of 0..5 FREE bytes with a free sequence id",
 		Assumptions: []string{"client and processor meet through a synchronous loopback transport (no sockets, no concurrency)", "the programs dimension is this one designed service"},
 		Variants: []*Prop{
 			{Label: "default", Pkg: "zzgen/c08/svc", NoOverlay: true, Diff: []string{"D_C08_1"},
